@@ -21,10 +21,18 @@
 (* (the L1 functions), that every table index is inside the table, and the  *)
 (* accumulator-window invariant below.                                      *)
 (*                                                                          *)
-(* Abstraction of val: the C++ int grows without bound (and wraps); the     *)
-(* code only ever reads bits valb .. valb+7 of it with valb <= 6, so the    *)
-(* model keeps val modulo 2^16 before each shift (WindowInv states the      *)
-(* bound on valb that makes this exact).                                    *)
+(* val is the C++ int exactly: its 32-bit two's complement pattern, kept as  *)
+(* two 16-bit limbs <<hi, lo>> (TLC integers are 32 bit themselves).  `<<`   *)
+(* drops what leaves the 32 bits (what g++ and clang++ do, and what C++20    *)
+(* prescribes); `>> k` followed by a mask reads a bit field, which is the    *)
+(* same for an arithmetic shift whatever the sign (Field).  The accumulator  *)
+(* is never masked by the code, so from the 4th input byte (6th character)   *)
+(* on it wraps: Refines/Progress hold nevertheless, because only bits below  *)
+(* 14 are ever read (WindowInv).  By the letter of C++14 a left shift of a   *)
+(* negative int, or one whose result does not fit unsigned int, is undefined *)
+(* behaviour: the ghost ub records it (NoShiftUB is violated for inputs of 5 *)
+(* bytes / 7 characters and more - an observation, not part of the property, *)
+(* see Base64Impl_shiftub.cfg).                                              *)
 (*                                                                          *)
 (* IndexMode = "uchar": the table is indexed with the unsigned value of the *)
 (* character (the repaired code).  IndexMode = "size_t_of_char": the        *)
@@ -43,8 +51,9 @@ VARIABLES mode,    \* "enc" | "dec"
           pos,     \* next input position (1-based)
           val, valb, out,
           pc,      \* "loop" | "emit" | "pad" | "done"
-          idx      \* ghost: the last table index used by decode (or <<"none">>)
-vars == <<mode, input, pos, val, valb, out, pc, idx>>
+          idx,     \* ghost: the last table index used by decode (or <<"none">>)
+          ub       \* ghost: a left shift so far was undefined behaviour by the letter of C++14
+vars == <<mode, input, pos, val, valb, out, pc, idx, ub>>
 
 StringsUpTo(A, n) == UNION {[1..k -> A] : k \in 0..n}
 
@@ -57,35 +66,41 @@ Lookup(ix) == IF ix[1] = "small" THEN Table[ix[2]] ELSE -1      \* what an out-o
 
 Init == /\ \/ mode = "enc" /\ input \in StringsUpTo(ByteReps, MaxLen) /\ valb = -6
            \/ mode = "dec" /\ input \in StringsUpTo(TextReps, MaxText) /\ valb = -8
-        /\ pos = 1 /\ val = 0 /\ out = <<>> /\ pc = "loop" /\ idx = <<"none">>
+        /\ pos = 1 /\ val = <<0, 0>> /\ out = <<>> /\ pc = "loop" /\ idx = <<"none">> /\ ub = FALSE
 
-Shr(x, k) == x \div (2 ^ k)
+(* 32-bit int as <<hi, lo>> *)
+Shl(v, k)      == <<(v[1] * (2 ^ k) + (v[2] \div (2 ^ (16 - k)))) % 65536, (v[2] * (2 ^ k)) % 65536>>      \* k <= 8
+AddLow(v, c)   == <<v[1], v[2] + c>>                  \* after a shift by k the low k bits are 0 and c < 2^k: no carry
+Field(v, k, w) == ((v[2] \div (2 ^ k)) + (v[1] % 256) * (2 ^ (16 - k))) % (2 ^ w)      \* (v >> k) & (2^w - 1) for k <= 15, k + w <= 24
+ShlUB(v, k)    == v[1] >= 32768 \/ v[1] * (2 ^ k) >= 65536                              \* negative, or the result does not fit unsigned int
 
 (* ---- encode *)
 EncFeed == /\ mode = "enc" /\ pc = "loop" /\ pos <= Len(input)
-           /\ val' = (val % 65536) * 256 + input[pos]
+           /\ val' = AddLow(Shl(val, 8), input[pos])
+           /\ ub' = (ub \/ ShlUB(val, 8))
            /\ valb' = valb + 8
            /\ pc' = "emit"
            /\ UNCHANGED <<mode, input, pos, out, idx>>
 EncEmit == /\ mode = "enc" /\ pc = "emit" /\ valb >= 0
-           /\ out' = Append(out, L1!Alphabet[(Shr(val, valb) % 64) + 1])
+           /\ out' = Append(out, L1!Alphabet[Field(val, valb, 6) + 1])
            /\ valb' = valb - 6
-           /\ UNCHANGED <<mode, input, pos, val, pc, idx>>
+           /\ UNCHANGED <<mode, input, pos, val, pc, idx, ub>>
 EncNext == /\ mode = "enc" /\ pc = "emit" /\ valb < 0
            /\ pos' = pos + 1 /\ pc' = "loop"
-           /\ UNCHANGED <<mode, input, val, valb, out, idx>>
+           /\ UNCHANGED <<mode, input, val, valb, out, idx, ub>>
 EncTail == /\ mode = "enc" /\ pc = "loop" /\ pos > Len(input)
            /\ out' = IF valb > -6
-                       THEN Append(out, L1!Alphabet[(Shr((val % 65536) * 256, valb + 8) % 64) + 1])
+                       THEN Append(out, L1!Alphabet[Field(Shl(val, 8), valb + 8, 6) + 1])
                        ELSE out
+           /\ ub' = (ub \/ (valb > -6 /\ ShlUB(val, 8)))
            /\ pc' = "pad"
            /\ UNCHANGED <<mode, input, pos, val, valb, idx>>
 EncPad  == /\ mode = "enc" /\ pc = "pad" /\ Len(out) % 4 # 0
            /\ out' = Append(out, L1!Pad)
-           /\ UNCHANGED <<mode, input, pos, val, valb, pc, idx>>
+           /\ UNCHANGED <<mode, input, pos, val, valb, pc, idx, ub>>
 EncDone == /\ mode = "enc" /\ pc = "pad" /\ Len(out) % 4 = 0
            /\ pc' = "done"
-           /\ UNCHANGED <<mode, input, pos, val, valb, out, idx>>
+           /\ UNCHANGED <<mode, input, pos, val, valb, out, idx, ub>>
 
 (* ---- decode *)
 DecFeed == /\ mode = "dec" /\ pc = "loop" /\ pos <= Len(input)
@@ -93,19 +108,20 @@ DecFeed == /\ mode = "dec" /\ pc = "loop" /\ pos <= Len(input)
                   t  == Lookup(ix) IN
               /\ idx' = ix
               /\ IF t = -1
-                   THEN pc' = "done" /\ UNCHANGED <<pos, val, valb, out>>
-                   ELSE LET v  == (val % 65536) * 64 + t
+                   THEN pc' = "done" /\ UNCHANGED <<pos, val, valb, out, ub>>
+                   ELSE LET v  == AddLow(Shl(val, 6), t)
                             vb == valb + 6 IN
                         /\ val' = v
+                        /\ ub' = (ub \/ ShlUB(val, 6))
                         /\ pos' = pos + 1
                         /\ pc' = "loop"
                         /\ IF vb >= 0
-                             THEN out' = Append(out, Shr(v, vb) % 256) /\ valb' = vb - 8
+                             THEN out' = Append(out, Field(v, vb, 8)) /\ valb' = vb - 8
                              ELSE out' = out /\ valb' = vb
            /\ UNCHANGED <<mode, input>>
 DecEnd  == /\ mode = "dec" /\ pc = "loop" /\ pos > Len(input)
            /\ pc' = "done"
-           /\ UNCHANGED <<mode, input, pos, val, valb, out, idx>>
+           /\ UNCHANGED <<mode, input, pos, val, valb, out, idx, ub>>
 
 Next == EncFeed \/ EncEmit \/ EncNext \/ EncTail \/ EncPad \/ EncDone \/ DecFeed \/ DecEnd
 Spec == Init /\ [][Next]_vars
@@ -126,14 +142,20 @@ Progress == pc = "loop" =>
 (* "never indexes outside its lookup table" *)
 IndexInTable == idx[1] # "huge"
 
-(* the window abstraction of val is exact: no bit at or above 16 is ever read *)
+(* only bits 0..13 of the accumulator are ever read (Field(val, valb, 6 or 8) with these bounds on valb), so what  *)
+(* happens to the bits that leave the int on the left never matters                                              *)
 WindowInv == /\ mode = "enc" => valb \in -6..6
              /\ mode = "dec" => valb \in -8..4
-             /\ val < 16777216
+             /\ val \in (0..65535) \X (0..65535)
+(* by the letter of C++14 (not of C++20, not of what g++/clang++ document) - see the header comment *)
+NoShiftUB == ~ub
 
 Terminates == <>(pc = "done")
 FairSpec == Spec /\ WF_vars(Next)
 
 BoundaryBytes == {0, 1, 63, 64, 127, 128, 191, 192, 254, 255}
 BoundaryText  == {65, 47, 43, 122, 57, 61, 32, 128, 255, 0}
+(* longer inputs over fewer values: the int accumulator wraps from the 4th byte / 6th character on *)
+WrapBytes     == {0, 127, 128, 255}
+WrapText      == {65, 47, 103, 61}              \* 'A' (value 0), '/' (63), 'g' (32), '='
 =============================================================================
